@@ -10,7 +10,7 @@ fn defs() -> Vec<&'static CheckDef> {
 }
 
 fn usage() -> ! {
-    eprintln!("usage: simrun check <ID> <quick|thorough> [--runs N] | replay <file> [--quiet] | hashes <ID> <runs> | list");
+    eprintln!("usage: simrun check <ID> <quick|thorough> [--runs N] | replay <file> [--quiet] | hashes <ID> <runs> | locate <ID> <tier> | range <ID> <a> <b> | list");
     std::process::exit(2)
 }
 
@@ -48,6 +48,25 @@ fn main() {
             let path = args.get(1).unwrap_or_else(|| usage());
             let quiet = args.iter().any(|a| a == "--quiet");
             std::process::exit(check::replay_file(&defs, path, &verif_dir, quiet));
+        }
+        Some("range") => {
+            // run the indices [start, end) of the search sequentially in this process and exit 0; used
+            // by `locate` to find a run that kills the process (stack overflow, abort)
+            let id = args.get(1).unwrap_or_else(|| usage());
+            let start: u64 = args.get(2).and_then(|s| s.parse().ok()).unwrap_or(0);
+            let end: u64 = args.get(3).and_then(|s| s.parse().ok()).unwrap_or(0);
+            let Some(def) = defs.iter().find(|d| d.id == id) else { usage() };
+            for idx in start..end {
+                let _ = check::exec_case(def, core::tape::Tape::generate(check::case_seed(seed, def.id, idx), vec![]), false);
+            }
+        }
+        Some("locate") => {
+            // after the search process died: find the first run index that kills a process
+            let id = args.get(1).unwrap_or_else(|| usage());
+            let tier = args.get(2).map(|s| s.as_str()).unwrap_or("quick");
+            let Some(def) = defs.iter().find(|d| d.id == id) else { usage() };
+            let total = if tier == "thorough" { def.thorough_runs } else { def.quick_runs };
+            std::process::exit(check::locate_abort(def, seed, total, &verif_dir));
         }
         Some("hashes") => {
             // per-run event-log hashes, for the determinism self-test
